@@ -23,7 +23,7 @@ COMPONENTS = {"real": ["ECAgent.Core._MetaAgent (per-class _components / _tag, a
                        "__getitem__/__len__/__contains__, tag property)", "Agent.__init__ (default tag)", "Environment / "
                        "SpaceWorld constructors"],
               "stub": ["agent classes are created by the harness with type(); component classes are harness-defined"]}
-PROBES = ["explicit_tag_zero_with_nonzero_default", "tag_set_on_Agent_itself", "class_component_on_environment_class",
+PROBES = ["explicit_negative_tag", "explicit_tag_zero_with_nonzero_default", "tag_set_on_Agent_itself", "class_component_on_environment_class",
           "reject_duplicate_attach", "reject_detach_absent", "instance_component_attached", "subclass_instantiated_after_tag",
           "parent_instantiated_after_child_tag", "child_instantiated_after_parent_tag", "depth_3_chain", "sibling_isolation_checked", "class_created_mid_history", "class_cloned_from_namespace",
           "shared_namespace_dict", "model_lifecycle_op", "many_classes", "class_level_op_inside_creation_hook", "model_built_mid_history", "classes_sharing_module_and_qualname", "diamond_of_environment_and_agent_class", "default_tag_set_inside_the_constructor",
@@ -154,6 +154,13 @@ def generate(rng, tier):
             at = rng.randint(0, len(ops))
             ops.insert(at, {"op": "new_model"})
             ops.insert(rng.randint(at + 1, len(ops)), {"op": "touch_models", "step": rng.random() < 0.3})
+    if rng.random() < 0.25:
+        # tags are plain ints: negative markers (DEAD = -1), large values and bools are given explicitly or set as defaults too
+        for o_ in ops:
+            if o_["op"] == "new" and o_.get("tag") is not None and rng.random() < 0.6:
+                o_["tag"] = rng.choice([-1, -1, -7, -2 ** 70, 2 ** 70, True, False])
+            elif o_["op"] == "tag" and rng.random() < 0.3:
+                o_["v"] = rng.choice([-1, -3, 2 ** 70])
     many = rng.choice([140, 180, 260]) if rng.random() < (0.04 if tier == "thorough" else 0.015) else 0
     return {"classes": classes, "ops": ops, "many": many, "diamond": rng.random() < 0.08, "lazy_tag": rng.random() < 0.08}
 
@@ -389,6 +396,8 @@ def execute(sc, ctx):
             want = tags[i] if explicit is None else explicit
             if explicit == 0 and tags[i] != 0:
                 ctx.probe("explicit_tag_zero_with_nonzero_default")
+            if explicit is not None and not isinstance(explicit, bool) and explicit < 0:
+                ctx.probe("explicit_negative_tag")
             ctx.check(inst.tag == want, "instance-default-tag",
                       lambda: f"{cls.__name__}(...{'' if explicit is None else f', tag={explicit}'}).tag = {inst.tag!r}, "
                               f"expected {want!r} (current default tag of its own class is {tags[i]!r}; "
